@@ -75,8 +75,10 @@ def region_of(scen, judged, oracle):
     if name.endswith("_second_shutdown"):
         return {"region": "D26", "case": "shutdown(wait=True) after an earlier shutdown of the same executor"}
     if executed_failure(scen, judged):
+        # (the deadlock leaves threads behind, never processes: the failed worker's process is stopped when its call fails, every
+        # surviving thread stops its process before it joins the queue — ghost processes are outside the region)
         if ex.get("block_allocation") and ex.get("max_workers", 1) >= 2 and name in (
-                "no_hang", "thread_alive_at_end", "ghost_process_at_end", "ghost_process_after_wait", "not_done_after_wait"):
+                "no_hang", "thread_alive_at_end", "not_done_after_wait"):
             return {"region": "D19", "case": "block allocation, >=2 workers, a call raised"}
         if not ex.get("block_allocation") and name in ("ghost_process_after_wait", "not_done_after_wait"):
             return {"region": "D17", "case": "one process per call, a call raised, shutdown(wait=True) re-raised"}
